@@ -5,6 +5,7 @@ pub(crate) mod c10;
 pub(crate) mod c14;
 pub(crate) mod c15;
 pub(crate) mod panics;
+pub(crate) mod shard;
 
 pub(crate) struct Opts {
     pub tier: String,
@@ -25,6 +26,13 @@ pub(crate) fn run(id: &str, opts: &Opts) -> Option<i32> {
         "C14" => c14::run(opts, &mut report),
         "C15" => c15::run(opts, &mut report),
         _ => return None,
+    }
+    if shard::child_item().is_some() {
+        return Some(0);
+    }
+    if !shard::DEAD.lock().unwrap().is_empty() && id != "C10" {
+        eprintln!("worker processes died: machinery failure, no verdict");
+        return Some(2);
     }
     Some(report.finish())
 }
